@@ -896,8 +896,9 @@ def get_admid(model: Model):
 
     # Replace all observations with the previous admid type
     current_admin = adm[0]
-    current_subject = model.dataset["ID"][0]
-    for i, data in enumerate(zip(get_evid(model), adm, model.dataset["ID"])):
+    idcol = di.id_column.name
+    current_subject = model.dataset[idcol][0]
+    for i, data in enumerate(zip(get_evid(model), adm, model.dataset[idcol])):
         event = data[0]
         admin = data[1]
         subject = data[2]
